@@ -75,3 +75,19 @@ Proof.
   exact (cached_entry_source c _ name ns t Hc (final_inv c ops Hc Hf _ (init_inv c Hc)) Hw).
 Qed.
 Print Assumptions c14_namespace_isolated.
+
+(** A cache hit made with a render context (include / render / extends, or
+    get_template with a context argument) that needs no reload serves the caller
+    the template bound to its OWN globals, and leaves every cached entry - the
+    one that was hit included - bound as its holder left it: only the recency
+    order changes (the defect fixed in /repo cbb1e05 was the first half, the one
+    fixed in 65f8ab3 the second). *)
+Theorem c14_context_hit_own_globals_bindings_kept : forall c s name ns g a t ch1,
+  lru_get (cache s) (cache_key c name ns) = Some (t, ch1) ->
+  c_auto_reload c && negb (is_up_to_date s t a) = false ->
+  let r := cached_load c s name ns g a false in
+  fst r = Loaded (t_content t) g /\
+  (forall k, assoc k (od (cache (snd r))) = assoc k (od (cache s))) /\
+  store (snd r) = store s.
+Proof. exact context_hit_serves_own_globals_and_keeps_bindings. Qed.
+Print Assumptions c14_context_hit_own_globals_bindings_kept.
